@@ -310,6 +310,54 @@ class Framing(Harness):
         return label
 
 
+class PartialSend(Harness):
+    """the OS may accept only part of the data handed to send() (it returns the number of bytes it took): whatever amount k each call accepts, the bytes that
+    reach the wire for one send_packet() are the whole packet, in order."""
+    prop, ob = PROP, 'O5'
+    width = 64
+
+    def __init__(self, n):
+        self.n = n
+        self.name = 'partial-send-%d' % n
+
+    def params(self):
+        return {'n': self.n}
+
+    def inputs(self):
+        return {'payload': zx.fresh_bytes('p', self.n), 'k': zx.fresh_int('k', 1, 24)}
+
+    def run(self, M, inp):
+        s, ss, out = stubs.ssh_socket(M, [])
+        k = inp['k']
+        k = k if isinstance(k, int) else zx.cur().concretize(k.e)
+        wire = []
+
+        def limited_send(data):
+            take = data[:k]
+            wire.append(take)
+            return len(take)
+        ss.send = limited_send
+        s.write(inp['payload'])
+        r = guarded(s.send_packet)
+        if isinstance(r, Exc):
+            return {'exc': r}
+        full = b''
+        for w in wire:
+            full = full + w
+        # reference: the same packet through a socket that takes everything at once
+        s2, ss2, out2 = stubs.ssh_socket(M, [])
+        s2.write(inp['payload'])
+        s2.send_packet()
+        ref = ss2.sent[0]
+        return {'wire_len': len(full), 'ref_len': len(ref), 'same': (len(full) == len(ref)) and bool(full[:5] == ref[:5]) and bool(full[5:5 + self.n] == ref[5:5 + self.n]), 'ret': r}
+
+    def check(self, inp, obs):
+        if 'exc' in obs:
+            yield 'no-exception', False
+            return
+        yield 'whole-packet-reaches-the-wire', obs['wire_len'] == obs['ref_len'] and obs['same']
+
+
 class FramingChunked(Harness):
     """two emitted packets back to back, delivered with a TCP segment boundary at position `cut` of the first packet (every position incl. inside the
     padding): both are read back unchanged - the reader must wait for a packet's padding before the next packet starts."""
@@ -591,6 +639,8 @@ def tasks(tier):
         T.append(Pkm(eb, mb))
     for n in (list(range(1, 18)) + [31, 32, 33] if tier == 'quick' else range(1, 65)):
         T.append(Framing(n))
+    for n in ((1, 9) if tier == 'quick' else (1, 4, 9, 20)):
+        T.append(PartialSend(n))
     for n in ((1, 3, 4, 11) if tier == 'quick' else (1, 2, 3, 4, 5, 10, 11, 12, 19)):
         total = 16 if n <= 6 else (24 if n <= 14 else 32)
         for cut in range(1, total + 1):
@@ -619,6 +669,8 @@ def harness_by_name(name, params):
         return KexInit(tuple(tuple(s) for s in params['shape']))
     if cls == 'pkm':
         return Pkm(params['ebits'], params['mbits'])
+    if name.split(':')[1].startswith('partial-send'):
+        return PartialSend(params['n'])
     if name.split(':')[1].startswith('framing-chunked'):
         return FramingChunked(params['n'], params['cut'])
     if cls == 'framing':
